@@ -34,7 +34,18 @@ Cat == << [text |-> "1",          kind |-> "integer", str |-> "",    exp |-> FAL
           [text |-> "0",          kind |-> "integer", str |-> "",    exp |-> FALSE],
           [text |-> "false",      kind |-> "boolean", str |-> "",    exp |-> FALSE],
           [text |-> "\"true\"",   kind |-> "string",  str |-> "true", exp |-> FALSE],
-          [text |-> "\"null\"",   kind |-> "string",  str |-> "null", exp |-> FALSE] >>
+          [text |-> "\"null\"",   kind |-> "string",  str |-> "null", exp |-> FALSE],
+          \* 20..: one string in two spellings, with characters some JSON writers escape (& < >) and with escapes only
+          [text |-> "\"a&b\"",           kind |-> "string", str |-> "a&b", exp |-> FALSE],
+          [text |-> "\"a\\u0026b\"",     kind |-> "string", str |-> "a&b", exp |-> FALSE],
+          [text |-> "\"<\"",             kind |-> "string", str |-> "<",   exp |-> FALSE],
+          [text |-> "\"\\u003c\"",       kind |-> "string", str |-> "<",   exp |-> FALSE],
+          [text |-> "\"x>y\"",           kind |-> "string", str |-> "x>y", exp |-> FALSE],
+          [text |-> "\"x\\u003ey\"",     kind |-> "string", str |-> "x>y", exp |-> FALSE],
+          [text |-> "\"a\\/b\"",         kind |-> "string", str |-> "a/b", exp |-> FALSE],
+          [text |-> "\"a/b\"",           kind |-> "string", str |-> "a/b", exp |-> FALSE],
+          [text |-> "\"\\\"\"",         kind |-> "string", str |-> "q",   exp |-> FALSE],
+          [text |-> "\"\\u0022\"",       kind |-> "string", str |-> "q",   exp |-> FALSE] >>
 Ids == 1..Len(Cat)
 
 Same(i, j) == \/ Cat[i].text = Cat[j].text
@@ -99,6 +110,10 @@ Scalar(i) ==
 
 Next == (\E t \in Plain : Tok(t)) \/ (\E i \in Use : Scalar(i))
 Spec == Init /\ [][Next]_vars
+
+\* a refused prefix stays refused whatever follows (no action is enabled once status = "err"): the harness also
+\* replays every refused path with a closing bracket appended, where a missed refusal shows as an accepted rule
+ErrIsFinal == [][status = "err" => status' = "err"]_vars
 
 \* end of input
 Accepting == status = "ok" /\ (ctl = "done" \/ (ctl = "eol" /\ ret = "done"))
